@@ -284,6 +284,36 @@ def build(tier="quick", seed=0):
 
     pack.add(Obligation("C01.cross", run_cross, kind="cross"))
 
+    def run_cross_ip(tier):
+        """the assumed ipaddress contract (pyvc/models/ip.py) against the real module on boundary values: version by magnitude, int() inverse, text inverse"""
+        import ipaddress as _ip
+        from pyvc.models.ip import SymIP, IPText
+
+        bad, n_ = [], 0
+        for v in (-1, 0, 1, 2 ** 31, 2 ** 32 - 1, 2 ** 32, 2 ** 32 + 1, 2 ** 64, 2 ** 128 - 1, 2 ** 128):
+            n_ += 1
+            try:
+                real = ("IPv%d" % _ip.ip_address(v).version, int(_ip.ip_address(v)))
+            except ValueError:
+                real = "ValueError"
+            def th(v=v):
+                it.assume(x == v)
+                a = it.call_native(_ip.ip_address, [SInt(x)], {}) if False else it.models[_ip.ip_address](it, SInt(x))
+                return ("IPv%d" % a.version, v)
+            ps = it.explore(th)
+            mine = [("ValueError" if p.kind == "raise" else p.value) for p in ps]
+            if mine != [real]:
+                bad.append((v, mine, real))
+        for fam, v in ((4, 0), (4, 2 ** 32 - 1), (6, 0), (6, 1), (6, 2 ** 32 - 1), (6, 2 ** 128 - 1)):
+            n_ += 1
+            a = (_ip.IPv4Address if fam == 4 else _ip.IPv6Address)(v)
+            back = _ip.ip_address(str(a))
+            if (back.version, int(back)) != (fam, v) or (_ip.ip_address(a).version, int(_ip.ip_address(a))) != (fam, v):
+                bad.append((fam, v, "text / object form does not map back to the same address"))
+        return Result("C01.cross[ipaddress model]", "proved" if not bad else "refuted", f"{len(bad)} disagreement(s): {bad[:3]}" if bad else "", paths=n_)
+
+    pack.add(Obligation("C01.cross[ipaddress model]", run_cross_ip, kind="cross"))
+
     def run_sweep(tier):
         args = {"seed": seed, "n": 150 if tier == "quick" else 3000}
         res = native_replay({"call": "c01_sweep", "args": args}, timeout=3000)
@@ -293,7 +323,7 @@ def build(tier="quick", seed=0):
 
     pack.add(Obligation("C01.roundtrip_sweep", run_sweep, kind="bounded", note="native run: random record sequences over every serialisable type (scalar and list, boundary / extreme / random values, None), several descriptors, nested and grouped records, "
                         "written by RecordWriter and read by RecordReader, compared by deep observation; bound 150 (quick) / 3000 (thorough) sequences", functions=FU))
-    pack.assumptions += ["msgpack tree model (strings are the identity on the surrogateescape-encodable domain)", "datetime / pathlib / shlex / ipaddress / urllib behaviour of the standard library on the representative values (executed natively by the engine)"]
+    pack.assumptions += ["ipaddress contract (pyvc/models/ip.py): an address is (version, value); ip_address(int) picks IPv4 below 2**32, IPv6 below 2**128; int() / str() are inverted by ip_address() within a family (sampled by C01.cross[ipaddress model])", "msgpack tree model (strings are the identity on the surrogateescape-encodable domain)", "datetime / pathlib / shlex / ipaddress / urllib behaviour of the standard library on the representative values (executed natively by the engine)"]
     pack.not_covered = ["path / command / uri / ip / datetime values beyond the representative ones (their parsing and normalisation is the standard library's): covered by the bounded native sweep only",
                         "generalisation from the representative descriptors to every descriptor rests on the template structure proved in C06 (names only at identifier positions) and on renaming invariance"]
     return pack
